@@ -382,7 +382,17 @@ def _run_task(prop, task, tier, deadline):
       with open(task['file']) as f:
         stored = json.load(f)
       try:
-        mod.replay(stored['case'], stored.get('check'))
+        try:
+          mod.replay(stored['case'], stored.get('check'))
+        except Violation:
+          raise
+        except HarnessError:
+          raise
+        except Exception as e:  # an exception raised inside brax on a stored in-domain case is a violation too
+          v_ = classify_exception(e)
+          if v_ is None:
+            raise
+          raise v_ from e
         ctx.record(fp='regress:' + os.path.basename(task['file']),
                    nontrivial=False, labels=[kind + ':pass'])
         if kind == 'known_witness':
